@@ -16,6 +16,7 @@ LEVEL_TEXT = (
     "every claiming path the owner map and the per-task name set are updated together (previous owner loses only that "
     "name); names are released only by run_coro when the owner ends; both decorator forms claim before the function "
     "body runs"
+    "; task.unique equals the specified transition table on all small registries and keeps the owner map and the per-task name sets mutually consistent; names claimed by a task's own done callbacks are released too; the kill_me pre-check and the claim use the same evaluator"
 )
 LEVEL_NOTE = (
     "cancellation is asynchronous through the reaper task: 'at most one live owner' over schedules is not decided by "
